@@ -16,16 +16,10 @@ namespace tapkee
 namespace tapkee_internal
 {
 
-template <class RandomAccessIterator>
-bool is_connected(RandomAccessIterator begin, RandomAccessIterator end, const Neighbors& neighbors)
+//! Depth-first search from the first vertex of a directed graph given by
+//! adjacency lists. Returns true if every one of the N vertices is visited.
+inline bool all_reachable_from_first(int N, const Neighbors& adjacency)
 {
-    timed_context context("Checking if graph is connected");
-
-    // The number of data points
-    int N = end - begin;
-    // The number of neighbors used in KNN
-    IndexType k = neighbors[0].size();
-
     typedef std::stack<int> DFSStack;
     typedef std::vector<bool> VisitedVector;
 
@@ -48,17 +42,43 @@ bool is_connected(RandomAccessIterator begin, RandomAccessIterator end, const Ne
         if (nvisited == N)
             break;
 
-        const LocalNeighbors& current_neighbors = neighbors[current];
+        const LocalNeighbors& current_neighbors = adjacency[current];
 
-        for (IndexType j = 0; j < k; ++j)
+        for (const int neighbor : current_neighbors)
         {
-            int neighbor = current_neighbors[j];
             if (!visited[neighbor])
                 stack.push(neighbor);
         }
     }
 
     return (nvisited == N);
+}
+
+//! Checks that every sample can reach every other sample along neighbor
+//! edges (i -> j when j is a neighbor of i). The neighborhood relation is not
+//! symmetric and shortest paths follow the edges in that direction, so
+//! reachability from a single sample is not enough: the graph is strongly
+//! connected iff every sample is reachable from the first one both in the
+//! graph itself and in the graph with all the edges reversed.
+template <class RandomAccessIterator>
+bool is_connected(RandomAccessIterator begin, RandomAccessIterator end, const Neighbors& neighbors)
+{
+    timed_context context("Checking if graph is connected");
+
+    // The number of data points
+    int N = end - begin;
+
+    if (!all_reachable_from_first(N, neighbors))
+        return false;
+
+    Neighbors reversed(N);
+    for (int i = 0; i < N; ++i)
+    {
+        for (const int neighbor : neighbors[i])
+            reversed[neighbor].push_back(i);
+    }
+
+    return all_reachable_from_first(N, reversed);
 }
 
 } /* namespace tapkee_internal */
